@@ -508,7 +508,7 @@ def run(env, res):
         rp = json.load(open(env['replay']))
         cases = [case_from_json(rp['case'])]
     else:
-        per = 60 if tier == 'quick' else 2500
+        per = 150 if tier == 'quick' else 4000
         focuses = STREAM_OPS + TERMINAL_OPS
         cases = [gen_case(rng, f) for f in focuses for _ in range(per)]
     t0 = time.time()
